@@ -18,8 +18,9 @@ import (
 	"jsim/sim"
 )
 
-// Indexes of the production registry (node.registerMigrations; overlay.py fails the build when the
-// source of that function no longer lists exactly these four, in this order).
+// Positions of the released schema (what node.registerMigrations of the released binaries assigns;
+// metadata written by earlier releases uses these bit positions). Constants of the harness: the
+// registry the CURRENT node.registerMigrations builds is judged against them (migs.go).
 const (
 	idxBlockTx  = 0 // blocktransactions.Migrator (mandatory)
 	idxPrune    = 1 // historyprunner (optional, --prune-mode)
